@@ -173,6 +173,84 @@ def stalled_peer_session(who_writes):
     return obs
 
 
+def silent_smsc_busy_app(interval, timeout):
+    """the SMSC answers for one second after the bind and then goes silent (it still reads); the application keeps submitting every 0.1 s.
+    The ESME's own traffic is no sign of life of the SMSC: a probe goes out `interval` after the last PDU RECEIVED, and the connection is
+    dropped `timeout` later."""
+    import struct
+    from harness import smppref
+    from aiosmpplib.protocol import SubmitSm
+    from aiosmpplib.state import PhoneNumber
+    from aiosmpplib.retrytimer import SimpleExponentialBackoff
+    loop = vsess.VLoop()
+    asyncio.set_event_loop(loop)
+    smsc = vsess.FakeSMSC(loop)
+    undo = vsess.install(loop, smsc)
+    obs = {'probes': [], 'last_inbound': None, 'closed0': None, 'binds': []}
+    try:
+        esme, hook = vsess.quiet_esme(enquire_link_interval=float(interval), socket_timeout=float(timeout), retry_timer=SimpleExponentialBackoff(100, 2))
+
+        def on_pdu(conn, pdu):
+            for p in vsess.split_pdus(pdu)[0]:
+                cmd, seq = struct.unpack('>I', p[4:8])[0], struct.unpack('>I', p[12:16])[0]
+                if cmd in (1, 2, 9):
+                    obs['binds'].append((loop.time(), conn.index))
+                    conn.send(vsess.bind_resp_for(p))
+                    if conn.index == 0:
+                        obs['last_inbound'] = loop.time()
+                elif conn.index == 0:
+                    if cmd == 0x15:
+                        obs['probes'].append(loop.time())
+                    if loop.time() < conn.opened_at + 1.0:
+                        if cmd == 4:
+                            conn.send(smppref.header(0x80000004, 0, seq, b'id%d\x00' % seq))
+                            obs['last_inbound'] = loop.time()
+                else:
+                    if cmd == 4:
+                        conn.send(smppref.header(0x80000004, 0, seq, b'id%d\x00' % seq), delay=0.01)
+                    elif cmd == 0x15:
+                        conn.send(smppref.header(0x80000015, 0, seq), delay=0.01)
+        smsc.on_pdu = on_pdu
+        src = PhoneNumber('38591')
+
+        async def main():
+            t = asyncio.create_task(esme.start())
+            horizon = 1.0 + 2 * (interval + timeout) + 3.0
+            k = 0
+            while loop.time() < horizon:
+                await asyncio.sleep(0.1)
+                k += 1
+                await esme.broker.enqueue(SubmitSm(short_message='m%d' % k, source=src, destination=src, log_id='L%d' % k))
+                if obs['closed0'] is None and smsc.conns and smsc.conns[0].closed_at is not None:
+                    obs['closed0'] = smsc.conns[0].closed_at
+            obs['start_done'] = t.done()
+            t.cancel()
+            await asyncio.wait({t}, timeout=30.0)
+        loop.run_until_complete(main())
+    finally:
+        undo()
+        vsess.finish(loop)
+    return obs
+
+
+def oracle_silent_smsc_busy_app(obs, interval, timeout):
+    if obs['start_done']:
+        return 'start() ended'
+    li = obs['last_inbound']
+    if not obs['probes']:
+        return (f'the SMSC sent its last PDU at t={li:.2f} and stayed silent while the application went on submitting: no enquire_link was sent '
+                f'(interval {interval} s), the connection was {"closed at t=%.2f" % obs["closed0"] if obs["closed0"] else "never dropped"}')
+    p0 = obs['probes'][0]
+    if not li + interval - 0.05 <= p0 <= li + interval + 0.25:
+        return f'the first enquire_link went out at t={p0:.2f}; the last PDU from the SMSC was received at t={li:.2f} (interval {interval} s)'
+    if obs['closed0'] is None or not p0 + timeout - 0.05 <= obs['closed0'] <= p0 + timeout + 0.8:
+        return (f'the probe of t={p0:.2f} was never answered (time-out {timeout} s); the connection was '
+                f'{"closed at t=%.2f" % obs["closed0"] if obs["closed0"] else "never dropped"}')
+    if not any(c > 0 for _t, c in obs['binds']):
+        return 'the dropped connection was not replaced'
+    return None
+
+
 def oracle_stalled_peer(obs):
     if obs['start_done']:
         return 'start() ended'
@@ -330,6 +408,14 @@ def run(ctx):
             ctx.violation(f'connection lost while the send_error hook called from the correlation of a response never returns ({kind}): the later messages '
                           f'C, D, E got the outcomes {later} - the session was not replaced (start() ended: {obs.get("start_done")})',
                           {'function': 'blocked_hook', 'kind': kind})
+    # ---- a silent SMSC and a busy application: what the ESME sends itself is no sign of life
+    for interval, timeout in ((0.5, 0.5), (2.0, 1.0)):
+        obs = silent_smsc_busy_app(interval, timeout)
+        ctx.traces += 1
+        ctx.case(('silent_smsc_busy_app', interval, timeout), nontrivial=True)
+        msg = oracle_silent_smsc_busy_app(obs, interval, timeout)
+        if msg:
+            ctx.violation(msg, {'function': 'silent_smsc_busy_app', 'interval': interval, 'timeout': timeout})
     # ---- a peer that stops reading (write back-pressure) and never answers: dropped, and the next connection works
     for who in ('application', 'nobody'):
         obs = stalled_peer_session(who)
